@@ -441,8 +441,14 @@ impl BitVector for Bv {
 
 impl Hash for Bv {
     fn hash<H: Hasher>(&self, state: &mut H) {
-        self.len().hash(state);
-        for i in 0..Self::int_len::<u64>(self) {
+        // Equality ignores the length (the shorter operand is zero extended), so the hash may only
+        // depend on the value: hash the words up to the most significant non-zero one.
+        let mut len = Self::int_len::<u64>(self);
+        while len > 0 && self.get_int::<u64>(len - 1) == Some(0) {
+            len -= 1;
+        }
+        len.hash(state);
+        for i in 0..len {
             self.get_int::<u64>(i).unwrap().hash(state);
         }
     }
